@@ -1149,7 +1149,15 @@ class RZILTransformer(Transformer):
             case "*":
                 result = val_a * val_b
             case "/":
-                result = val_a / val_b
+                # C converts both operands to their common type and truncates the
+                # quotient towards zero.
+                c_type, _ = c11_cast(a.value_type, b.value_type)
+                if not c_type.signed:
+                    val_a %= 1 << c_type.bit_width
+                    val_b %= 1 << c_type.bit_width
+                result = abs(val_a) // abs(val_b)
+                if (val_a < 0) != (val_b < 0):
+                    result = -result
             case _:
                 raise NotImplementedError(f"Can not simplify '{operation}' expression.")
         a_type, b_type = c11_cast(a.value_type, b.value_type)
